@@ -1,14 +1,22 @@
-"""C18, setup side of the composite preconditioners (bounded units):
+"""C18, setup side of the composite preconditioners and the deflated solver.
 
-  cpr_first_scalar_pass     amgcl/preconditioner/cpr.hpp  first_scalar_pass(K, get_app): for every cell the dense
-                            (transposed) diagonal block -- ZERO where an entry is not stored -- is what `invert` sees,
-                            its result lands in Fpp->val[ik .. ik+B), Fpp / App have the documented structure
-  schur_init_blocks         amgcl/preconditioner/schur_pressure_correction.hpp  init(): Kuu, Kup, Kpu, Kpp with the idx
-                            renumbering reassemble to K entry for entry, for every pressure mask
-  schur_init_scatter        same function: x2u, x2p, u2x, p2x are the 0/1 gather / scatter matrices of the mask
+  cpr_first_scalar_pass   amgcl/preconditioner/cpr.hpp  first_scalar_pass(K, get_app) (bounded): for every cell the dense
+                          (transposed) diagonal block -- ZERO where an entry is not stored -- is what `invert` sees, exactly once,
+                          its result lands in Fpp->val[ik .. ik+B); Fpp / App have the documented structure.
+                          `invert` is a callee stub: it records its arguments, returns fresh tokens and leaves arbitrary LU
+                          leftovers in the scratch block (which the next cell must not inherit: seeded change C18).
+  cpr_partial_update      cpr::partial_update / update_transfer (scalar instantiation), loop-free provenance contract
+  schur_init_counts       amgcl/preconditioner/schur_pressure_correction.hpp init(), first half of the sub-block extraction
+  schur_init_fill_row     ... second half, the body of the (parallel) filling loop for one arbitrary row
+  schur_init_blocks       ... the whole extraction region end to end at a smaller bound: Kuu, Kup, Kpu, Kpp with the idx
+                          renumbering reassemble to K entry for entry (dense view and exact layout), for every pressure mask
+  schur_init_scatter      ... x2u, x2p, u2x, p2x are the 0/1 gather / scatter matrices of the mask
+  deflated_project        amgcl/deflated_solver.hpp project() / apply() / operator(): the A-DEF2 projection as an exact
+                          call sequence (bounded in the number of deflation vectors; scalars uninterpreted)
 
-Values are only moved in all three regions (the block inverse of CPR is a callee: recorded, not computed), so the
-value model is "32-bit token" (MODEL_INT32 without arithmetic).  All units are `unwound` (bounded stand-ins)."""
+Values are only moved in the CPR / Schur regions (the block inverse of CPR is a callee: recorded, not computed), so their
+value model is "token" (MODEL_INT32 without arithmetic; 8-bit tokens suffice for fewer than 256 value cells).
+All units are `unwound` (bounded stand-ins, never counted as proved).  Native replay: replay/composite.cpp."""
 import re
 from cxc.extract import Cut, Rule, UF, UFArgs, Loop, IdxRule, ExtractError, match_close, _split_args
 from cxc.unit import Unit
@@ -24,9 +32,9 @@ A_SETUP = [
     'A-std: std::partial_sum / std::min are prelude stubs; std::vector<T>(n) and multi_array<T,2>(B,B) are value-initialised (zero) fixed-capacity arrays with a logical length',
     'A-new: operator new[] never returns null; fresh arrays have nondeterministic content (every prior heap content)',
     'A-own: shared_ptr lifetimes are not modelled (make_shared -> plain allocation)',
-    'A-omp: OpenMP pragmas dropped: the loop is executed by ONE thread in ascending order (the schedule in which the per-thread scratch is reused most often); other distributions of the iterations are not modelled',
+    'A-omp: OpenMP pragmas dropped: parallel loops are executed by ONE thread in ascending order (for cpr::first_scalar_pass: the schedule in which the per-thread scratch block is reused by every cell; for the Schur filling loop the independence of the iterations is a frame obligation of schur_init_fill_row); other distributions of the iterations are not modelled',
     'A-iter: crs::row_iterator is the (col, end, val) pointer triple of builtin.hpp with its four members (operator bool, ++, col(), value()) as C macros',
-    'A-token: values are 32-bit tokens (they are only moved by the code under contract); callee bodies crs::set_size/scan_row_sizes/set_nonzeros are inlined from /repo',
+    'A-token: values are opaque tokens (they are only moved and compared by the code under contract; the input generator draws them from 0..255, more than the number of value cells, so every equality pattern is realised); callee bodies crs::set_size/scan_row_sizes/set_nonzeros are inlined from /repo',
 ]
 
 
@@ -319,7 +327,7 @@ cpr_fsp = Unit(
                'rows strictly ascending; values symbolic tokens (thorough: n <= 6 i.e. np <= 3, nnz <= 8 / 6; block_size 3, n <= 6, nnz <= 7 / 6)',
     assumptions=A_SETUP + ['A-sorted: the rows of K are in strictly ascending column order (cpr::init does not sort its copy of K; the multi-row merge of first_scalar_pass presupposes it)',
                            'A-invert: cpr::invert(A, y) is a callee: it may overwrite A (LU in place) and writes y[0..B); its arithmetic (LU without pivoting, triangular solves) is not under contract'],
-    replay='composite', timeout=600,
+    replay='composite', timeout=900,
     witness=wit('K') + ['w_bs', 'w_get_app', 'w_active_rows'],
     not_decided=['the floating-point block inverse itself (cpr::invert)', 'App values / columns (second pass of cpr::init)',
                  'cells whose diagonal block has no stored entry: invert is not called and Fpp->val of the cell stays uninitialised (singular block: outside the property)',
@@ -433,8 +441,8 @@ A_INST32 = 'A-inst: quick variants instantiate crs<V, Col, Ptr> with Col = Ptr =
 SCHUR_ITER = [
     Rule(r'for\s*\(auto k = (?:backend::)?row_begin\(\*K, i\); k; \+\+k\)', 'for(ptrdiff_t k = K->ptr[i]; k < K->ptr[i + 1]; ++k)', 2,
          why='R-iter (A-iter)', early=True),
-    Rule(r'\bk\.col\(\)', 'K->col[k]', '+', why='R-iter', early=True),
-    Rule(r'\bk\.value\(\)', 'K->val[k]', '+', why='R-iter', early=True),
+    Rule(r'\bk\.col\(\)', 'K->col[k]', None, why='R-iter', early=True),
+    Rule(r'\bk\.value\(\)', 'K->val[k]', None, why='R-iter', early=True),
 ]
 NEW_MATRIX = lambda k: Rule(r'auto (\w+) = std_make_shared<build_matrix>\(\);', r'crs *\1 = crs_new();', k, why='R-auto / make_shared')
 PMASK_IDX = IdxRule(r'self->prm\.pmask', 'self->prm.pmask_n', '+')
@@ -446,10 +454,28 @@ blocks_cut = Cut(
         IdxRule(r'idx', 'idx_n', '+'), PMASK_IDX,
         IdxRule(r'(Kuu|Kup|Kpu|Kpp)->ptr', r'\1->nrows + 1', '+'),
         IdxRule(r'(Kuu|Kup|Kpu|Kpp)->(?:col|val)', r'\1->nnz', '+'),
-        IdxRule(r'K->col|K->val', 'nonzeros(*K)', '+'), IdxRule(r'K->ptr', 'K->nrows + 1', '+'),
+        IdxRule(r'K->col|K->val', 'nonzeros(*K)', None), IdxRule(r'K->ptr', 'K->nrows + 1', '+'),
     ])
 
+IDX_STOP = r"""
+/* a failed subscript obligation ends the path: assert, then assume the SAME condition (the verdict is unchanged, the
+ * follow-up reports of the same defect -- CBMC's own pointer checks on the out-of-range access and everything computed
+ * from it -- are cut off; same device as units/_direct_common.py CXC_IDX_STOP)                                     */
+static inline ptrdiff_t cxc_idx_stop(ptrdiff_t e, size_t len)
+{
+#if defined(CXC_CBMC) && !defined(CXC_CANARY)
+  __CPROVER_assert(e >= 0 && (size_t)e < len, "safety.idx. subscript within the logical length of the array");
+  __CPROVER_assume(e >= 0 && (size_t)e < len);
+#endif
+  return e;
+}
+#undef IDX
+#define IDX(e, len, what) cxc_idx_stop((ptrdiff_t)(e), (size_t)(len))
+"""
 SCHUR_HDR = '#define MODEL_INT32 1\n' + VEC_PRELUDE + CRS_MEMBERS_C + NARROW_INPUT + SCHUR_VIEW
+# units whose region WRITES through computed positions (a wrong position cascades into hundreds of follow-up reports): path cut at the failed subscript
+# (measured cost: +30..60 % solver time, so the counting / scatter units keep the plain IDX)
+SCHUR_HDR_STOP = '#define MODEL_INT32 1\n' + VEC_PRELUDE + IDX_STOP + CRS_MEMBERS_C + NARROW_INPUT + SCHUR_VIEW
 
 schur_blocks = Unit(
     name='schur_init_blocks', props=['C18', 'C10'],
@@ -457,7 +483,7 @@ schur_blocks = Unit(
     desc='the u/p sub-blocks Kuu, Kup, Kpu, Kpp with the idx renumbering reassemble to K entry for entry (dense view and stored copies), '
          'for every pressure mask; idx is the rank within the class; row order is preserved',
     cuts=dict(crs_member_cuts(), body=blocks_cut),
-    template=SCHUR_HDR + SCHUR_BLOCKS_SPEC + r"""
+    template=SCHUR_HDR_STOP + SCHUR_BLOCKS_SPEC + r"""
 WITNESS_CRS(K)
 /* contract (enforced by the harness below):
  *   requires  K square well-formed (any pattern: unsorted rows, duplicates, empty rows); pmask has n flags (any char values);
@@ -521,7 +547,7 @@ void h_schur_blocks(void)
                'the bound n <= 4, nnz <= 6 is covered step by step by schur_init_counts + schur_init_fill_row), every pressure mask (any char values), any pattern (unsorted rows, duplicates, empty rows), values symbolic tokens (thorough: n <= 5, nnz <= 7)',
     assumptions=A_SETUP + ['A-pmask: prm.pmask has exactly n entries (pmask_size == rows(K)); the constructor does not check it', A_INST32,
                            'A-ctor: np and nu enter init() as 0 (member initialisers np(0), nu(0) of both constructors)'],
-    replay='composite', timeout=300, witness=wit("K") + ["w_pmask"],
+    replay='composite', timeout=600, witness=wit("K") + ["w_pmask"],
     not_decided=['the adjust_p corrections of Kpp and the simplec_dia / approx_schur diagonals (floating point)', 'copy to the backend (copy_matrix)',
                  'pmask shorter than n (out-of-bounds read: outside the documented domain)'],
 )
@@ -563,12 +589,12 @@ counts_cut = Cut(
     SCHUR, r'// Extract matrix subblocks\.\n', kind='region', begin_exclusive=True,
     end=r'^#pragma omp parallel for\b.*?(?=^#pragma omp parallel for\b)', end_inclusive=True, flags=re.S | re.M,
     rules=[Rule(r'for\s*\(auto k = (?:backend::)?row_begin\(\*K, i\); k; \+\+k\)', 'for(ptrdiff_t k = K->ptr[i]; k < K->ptr[i + 1]; ++k)', 1, why='R-iter (A-iter)', early=True),
-           Rule(r'\bk\.col\(\)', 'K->col[k]', '+', why='R-iter', early=True)]
+           Rule(r'\bk\.col\(\)', 'K->col[k]', None, why='R-iter', early=True)]
     + [NEW_MATRIX(4)] + CALL_RULES + member_rules(['prm', 'n', 'np', 'nu']) + [
         Rule(r'std_vector<ptrdiff_t> idx\(([^;]+)\);', r'loc_vec idx; const size_t idx_n = vec_init(idx, \1, 0);', 1, why='R-vec-local: std::vector<ptrdiff_t>(n) is zero-filled'),
         IdxRule(r'idx', 'idx_n', '+'), PMASK_IDX,
         IdxRule(r'(Kuu|Kup|Kpu|Kpp)->ptr', r'\1->nrows + 1', '+'),
-        IdxRule(r'K->col', 'nonzeros(*K)', '+'), IdxRule(r'K->ptr', 'K->nrows + 1', '+'),
+        IdxRule(r'K->col', 'nonzeros(*K)', None), IdxRule(r'K->ptr', 'K->nrows + 1', '+'),
     ])
 schur_counts = Unit(
     name='schur_init_counts', props=['C18', 'C10'],
@@ -623,7 +649,7 @@ void h_schur_counts(void)
     solver=KISSAT,
     assumptions=A_SETUP + ['A-pmask: prm.pmask has exactly n entries (pmask_size == rows(K)); the constructor does not check it', A_INST32,
                            'A-ctor: np and nu enter init() as 0 (member initialisers np(0), nu(0) of both constructors)'],
-    replay='composite', timeout=300, witness=wit('K') + ['w_pmask'],
+    replay='composite', timeout=900, witness=wit('K') + ['w_pmask'],
 )
 schur_counts.unwindset = [(r'for\(ptrdiff_t i = 0; i < \(\(ptrdiff_t\)\(self->n\)\)', 'NMAX+1'), (r'for\(size_t i = 0; i < self->n;', 'NMAX+1'),
                           (r'for\(ptrdiff_t k = K->ptr', 'ZMAX+1')]
@@ -631,13 +657,13 @@ schur_counts.unwindset = [(r'for\(ptrdiff_t i = 0; i < \(\(ptrdiff_t\)\(self->n\
 fill_cut = Cut(
     SCHUR, r'for\(ptrdiff_t i = 0; i < static_cast<ptrdiff_t>\(n\); \+\+i\)\s*(?=\{)', nth=1,
     rules=[Rule(r'for\s*\(auto k = (?:backend::)?row_begin\(\*K, i\); k; \+\+k\)', 'for(ptrdiff_t k = K->ptr[i]; k < K->ptr[i + 1]; ++k)', 1, why='R-iter (A-iter)', early=True),
-           Rule(r'\bk\.col\(\)', 'K->col[k]', '+', why='R-iter', early=True),
-           Rule(r'\bk\.value\(\)', 'K->val[k]', '+', why='R-iter', early=True)]
+           Rule(r'\bk\.col\(\)', 'K->col[k]', None, why='R-iter', early=True),
+           Rule(r'\bk\.value\(\)', 'K->val[k]', None, why='R-iter', early=True)]
     + member_rules(['prm', 'n', 'np', 'nu']) + [
         IdxRule(r'idx', 'idx_n', '+'), PMASK_IDX,
         IdxRule(r'(Kuu|Kup|Kpu|Kpp)->ptr', r'\1->nrows + 1', '+'),
         IdxRule(r'(Kuu|Kup|Kpu|Kpp)->(?:col|val)', r'\1->nnz', '+'),
-        IdxRule(r'K->col|K->val', 'nonzeros(*K)', '+'), IdxRule(r'K->ptr', 'K->nrows + 1', '+'),
+        IdxRule(r'K->col|K->val', 'nonzeros(*K)', None), IdxRule(r'K->ptr', 'K->nrows + 1', '+'),
     ])
 schur_fill = Unit(
     name='schur_init_fill_row', props=['C18', 'C10'],
@@ -646,7 +672,7 @@ schur_fill = Unit(
          'at its rank among the entries of that column class, with column idx[j] and its value; nothing outside the two row segments of row idx[i] is written '
          '(the iterations of the parallel loop are independent)',
     cuts=dict(body=fill_cut),
-    template=SCHUR_HDR + SCHUR_STEP_SPEC + r"""
+    template=SCHUR_HDR_STOP + SCHUR_STEP_SPEC + r"""
 WITNESS_CRS(K)
 ptrdiff_t w_idx[CAP_LOC]; ptrdiff_t w_i;
 /* contract (enforced by the harness below):
@@ -721,7 +747,7 @@ void h_schur_fill_row(void)
     assumptions=A_SETUP + ['A-pmask: prm.pmask has exactly n entries (pmask_size == rows(K)); the constructor does not check it', A_INST32,
                            'A-steps: idx, the block shapes and row pointers are what the first half computed (postcondition of schur_init_counts, the same C predicates); '
                            'the rows of the parallel loop compose because each iteration writes only its own row segments (frame obligation) and the segments of different rows are disjoint (monotone row pointers)'],
-    replay='composite', timeout=300, witness=wit('K') + ['w_pmask', 'w_idx', 'w_i'],
+    replay='composite', timeout=600, witness=wit('K') + ['w_pmask', 'w_idx', 'w_i'],
 )
 schur_fill.unwindset = [(r'for\(ptrdiff_t k = K->ptr', 'ZMAX+1')]
 
@@ -954,7 +980,12 @@ int w_nvec, w_mode;
 void h_deflated(void)
 {
   deflated me; deflated *self = &me;
+#ifdef NVEC
+  int nvec = NVEC;      /* the number of deflation vectors is fixed per variant (every value up to the bound is enumerated): a symbolic nvec makes
+                           the row-major index i*nvec+j a symbolic product and the SAT instance explode (measured: out of memory at NV = 5) */
+#else
   int nvec = nondet_ushort() & 7;
+#endif
   REQUIRES_(1 <= nvec && nvec <= NV);
   vec zs[NV], r, b, x; mat A;
   self->prm.nvec = nvec; self->n = nondet_ushort(); self->P.id = 31; self->Pmat.id = 11; self->S.id = 32; A.id = 12;
@@ -1030,21 +1061,21 @@ solve_cut = Cut(DEFL, r'std::tuple<size_t, scalar_type> operator\(\)\(const Vec1
 solveA_cut = Cut(DEFL, r'std::tuple<size_t, scalar_type> operator\(\)\(\s*const Matrix &A, const Vec1 &rhs, Vec2 &&x\) const\s*(?=\{)',
                  rules=DEFL_MEMBERS + [Rule(r'\bS\((\w+), \*this, (\w+), (\w+)\)', r'tr_solve(&self->S, (\1).id, self, &(\2), &(\3))', None, why='functor call -> C call')])
 deflated = Unit(
-    name='deflated_project', props=['C18', 'C15', 'C10'],
+    name='deflated_project', props=['C18', 'C10'],
     functions=['deflated_solver::project(b, x)', 'deflated_solver::apply(rhs, x)', 'deflated_solver::operator()(rhs, x)', 'deflated_solver::operator()(A, rhs, x)'],
     desc='A-DEF2 projection as an exact call sequence: r = b - A x; f_j = <Z_j, r>; d = E f (row-major E, folded from zero); x += sum_i d_i Z_i; '
          'apply() = P.apply then the projection; operator() = the projection, then the iterative solver preconditioned by *this on the projected x',
     cuts={'project': project_cut, 'apply': apply_cut, 'solve': solve_cut, 'solveA': solveA_cut},
     template=DEFL_T, entry='h_deflated', mode='unwound', unwind='NV*NV+2', model='uf',
-    variants=[{'NV': 3, 'MODE': m} for m in (0, 1, 2, 3)],
-    thorough_variants=[{'NV': 5, 'MODE': m} for m in (0, 1, 2, 3)],
-    bound_text='1 <= nvec <= 3 deflation vectors (thorough: <= 5); everything else (vector contents, E, scalars) symbolic / uninterpreted',
+    variants=[{'NV': 5, 'NVEC': k, 'MODE': m} for k in (1, 2, 3, 4, 5) for m in (0, 1, 2, 3)] + [{'NV': 2, 'MODE': 0}],
+    thorough_variants=[{'NV': 8, 'NVEC': k, 'MODE': m} for k in (1, 2, 3, 4, 5, 6, 7, 8) for m in (0, 1, 2, 3)] + [{'NV': 3, 'MODE': m} for m in (0, 1, 2, 3)],
+    bound_text='every number of deflation vectors nvec = 1..5 (the range of the property; one variant per nvec and entry point: project, apply, both operator()), plus symbolic nvec <= 2 for project (thorough: nvec = 1..8, symbolic nvec <= 3); everything else (vector contents, E, scalars) symbolic / uninterpreted',
     assumptions=['A-bound: nothing is claimed beyond the stated number of deflation vectors',
                  'A-abs: backend::residual / inner_product / lin_comb, P.apply and the iterative solver S are recording stubs with typestate obligations (their functional contracts are C07 / C01 / C02)',
                  'A-uf: scalars are opaque 16-bit tokens, + and * uninterpreted (the statement holds for every scalar type); only is_zero(0) and !is_zero(1) are assumed',
                  'A-E: E holds the inverse of Z A Z^T as init() left it (dense inverse: floating point, not under contract)',
                  'A-vec: std::vector members d, E, Z are fixed-capacity arrays with a logical length'],
-    replay=None, timeout=300,
+    replay='composite', timeout=300, witness=['w_nvec', 'w_mode'],
     not_decided=['init(): E = (Z A Z^T)^-1 (dense inverse in floating point)', 'orthogonality of the projected residual to the deflation vectors (real-number statement given exact E)',
                  'that the solver returns the solution of the original system (convergence)', 'more deflation vectors than the bound'],
 )
@@ -1104,7 +1135,7 @@ static void f_partial_update(cpr *self, const mat *K_p, _Bool update_transfer_op
 }
 /* contract (enforced by the harness below):
  *   ensures  S is a NEW global preconditioner built from a builtin copy of the given K (exactly one construction);
- *            update_transfer_ops: Fpp = backend copy of first_scalar_pass(that copy, get_app = false).fpp, exactly one pass;
+ *            update_transfer_ops: Fpp = backend copy of first_scalar_pass(that copy, .).fpp, exactly one pass (Fpp does not depend on get_app: unit cpr_first_scalar_pass);
  *            otherwise Fpp is the old object; P (pressure preconditioner), Scatter, prm, n are the old objects in both cases
  *   hence    with an unchanged matrix K: S and Fpp are rebuilt from the same data by the same functions, P and Scatter are kept */
 _Bool nondet_bool(void); int nondet_int(void);
@@ -1123,8 +1154,8 @@ void h_partial_update(void)
           "partial_update: the global preconditioner S is rebuilt (once) from a builtin copy of the given matrix");
   if (flag) {
     ENSURES(g_fsp_calls == 1 && self->Fpp != &Fpp0 && self->Fpp->how == H_BACKEND_COPY && self->Fpp->from != 0 && self->Fpp->from->how == H_FSP_FPP
-            && self->Fpp->from->flag == 0 && self->Fpp->from->from == self->S->from,
-            "partial_update(update_transfer_ops): Fpp is the backend copy of first_scalar_pass(K copy, get_app = false).fpp of the same matrix S was built from");
+            && self->Fpp->from->from == self->S->from,
+            "partial_update(update_transfer_ops): Fpp is the backend copy of first_scalar_pass(K copy, .).fpp of the same matrix S was built from");
   } else {
     ENSURES(g_fsp_calls == 0 && self->Fpp == &Fpp0, "partial_update(no transfer update): Fpp is kept");
   }
